@@ -27,6 +27,10 @@ def run(res, pool, tier, seed):
     jobs.append(dict(module="MC_BodyBody.tla", tag="coplanar-crossing", invariants=INVS, timeout=3600, batch=40,
                      constants=dict(NL2=1, SA=2, OFF=0, GENK=set(), NGEN=1, S=2, BODIES1={"stripH", "triUp", "sq"}, BODIES2={"stripV", "triDown", "stripH"},
                                     T=1, SEED=sd, NSHARD=2 if tier == "quick" else 1)))
+    # faces with edges of generic slope stacked on a shared plane: the common part has non-dyadic (noisy) vertices
+    jobs.append(dict(module="MC_BodyBody.tla", tag="generic-stacked", invariants=INVS, timeout=3600, batch=40,
+                     constants=dict(NL2=4, SA=1, OFF=0, GENK=set(), NGEN=1, S=1, BODIES1={"gprismA", "gtriA"}, BODIES2={"gprismB", "gtriB", "cube", "box"},
+                                    T=2, SEED=sd, NSHARD=1)))
     engine.run_jobs(res, jobs, pool)
     import traces
     traces.run_for(res, ["unit_tests", "driver", "sessions"] if tier != "quick" else ["unit_tests", "sessions"], {"C03"}, seed=seed + 2, nsessions=300 if tier == "quick" else 2500)
@@ -36,7 +40,10 @@ def replay_case(case, tag, rng, tier):
     a, b, exp, m = case["a"], case["b"], case["exp"], case["m"]
     s = case.get("s", 1)
     out = {"mism": [], "skipped": {}, "calls": 0, "cls": "|".join(case["cls"]), "nontrivial": exp["k"] != "None"}
-    for pose in common.poses_for((a, b, exp), rng, 1, s):
+    poses = common.poses_for((a, b, exp), rng, 1, s)
+    if tag == "generic-stacked":
+        poses = [common.p5_pose(rng, common.all_points(a, b), s) for _ in range(2)] + poses[1:]
+    for pose in poses:
         num = common.num_for(rng, pose, (a, b))
         la, lb = common.build_variant(a, pose, num, rng), common.build_variant(b, pose, num, rng)
         for form, f in (("func", lambda: G.intersection(la, lb)), ("swapped", lambda: G.intersection(lb, la))):
